@@ -26,8 +26,9 @@ RULE = ('Thread programs P1 build with a slow callable, P2 edits inside/outside 
         'suspend_tracking, P3 deepcopy + ==, P4 dump_json/load_json, P5 first-time signature / '
         'type-hint lookup of a FRESH callable shared by both threads, P6 failing build of a fresh '
         'exception class shared by both threads, P7 nested build attempt; ordered pairs and '
-        'triples. Schedules: ALL single-preemption schedules of every ordered pair (quick) / all '
-        '<=2-preemption schedules on a stride grid (thorough), PCT(d=3) and uniform random walks, '
+        'triples. Schedules: single-preemption schedules of every ordered pair on a seed-offset grid '
+        'of ~70 yield points (quick) / ALL single-preemption schedules plus <=2-preemption '
+        'schedules on a 22x22 stride grid (thorough), PCT(d=3) and uniform random walks, '
         'plus free-running threads with a 1us switch interval. Oracle: per-thread canonical result '
         '== solo result; nested-build rejection only in the nesting thread; history ids unique and '
         'increasing per thread. Non-trivial: >=1 preemption happened; distinct = hash of the switch '
